@@ -1,10 +1,193 @@
 import Martian.Util
-/-! STUB — property C07 is not built yet. -/
+import Martian.Model.Shutdown
+/-!
+Driver for C07: trace acceptance. One op = `trace <event> <event> …` (the event log recorded on the
+real proxy, see go/internal/c07). The driver answers `ok n=<events> early=<0|1>` iff the log is the
+visible projection of some run of `Martian.Shutdown.step` from `init`, else `reject@<i>:<event>`.
+
+Only genuine model steps are ever applied (`Shutdown.step`), so acceptance is sound by construction:
+an accepted trace IS a run of the model. Invisible steps are inserted as follows
+* optional, branching (a set of candidate states is kept): `closeChan` after `call`;
+  `spawn;serveCheck` of the connection `Serve` holds; `add;checkClosing` of a spawned handler;
+  `decide` of a handler behind its response modifier;
+* on demand, immediately before the visible event that needs them: `serveCheck`, `gotReq`,
+  `closingSeen`, `decide`, `closeChan`, `lock`, `waitZero`; immediately after: `finish` (after the
+  connection close).
+Events that are observations rather than steps (`raddr` — the `RemoteAddr` evaluation `Serve` performs
+between `Accept` and `go handleLoop` —, `rd`, `obs`, `resp`, `eof`) filter the candidates by a
+predicate on the state.
+-/
 namespace Martian.Drv.C07
-open Martian
+open Martian Martian.Shutdown
 
 abbrev St := Unit
 def init : St := ()
-def step (s : St) (_toks : List String) : St × String := (s, "bad-op")
+
+/-- Environment facts accumulated from the trace (identical for all candidates). -/
+structure Env where
+  sent : List (List Bool) := []   -- per connection: `Connection: close` flag of each complete request sent
+  resps : List Nat := []          -- per connection: complete responses the client has seen
+
+def getD {α} (l : List α) (k : Nat) (d : α) : α := (l[k]?).getD d
+
+def setPad {α} (l : List α) (k : Nat) (d x : α) : List α :=
+  if k < l.length then l.set k x else l ++ List.replicate (k - l.length) d ++ [x]
+
+/-- Apply labels in sequence (all must be enabled). -/
+def runAll (s : Sys) (ls : List Label) : Option Sys := run s ls
+
+/-- Apply a label if it is enabled, else stay. -/
+def tryStep (s : Sys) (l : Label) : Sys := (step s l).getD s
+
+def optionalLabels (s : Sys) : List (List Label) :=
+  (if s.cpc = .called then [[Label.closeChan]] else []) ++
+  (match s.acc with
+   | .holding k => [[Label.h k .spawn, Label.serveCheck]]
+   | _ => []) ++
+  (List.range s.hs.length).flatMap fun k =>
+    match s.hs[k]? with
+    | some h =>
+      if h.pc = .spawned then [[Label.h k .add, Label.h k .checkClosing]]
+      else if h.pc = .postResmod then [[Label.h k .decide]]
+      else []
+    | none => []
+
+def insertNew (acc : List Sys) (s : Sys) : List Sys := if acc.contains s then acc else acc ++ [s]
+
+/-- All states reachable through optional invisible steps (bounded breadth-first search). -/
+def expand : Nat → List Sys → List Sys → List Sys
+  | 0, _, seen => seen
+  | fuel + 1, frontier, seen =>
+    let next := frontier.flatMap fun s => (optionalLabels s).filterMap fun ls => runAll s ls
+    let (seen', fresh) := next.foldl (fun (p : List Sys × List Sys) s =>
+      if p.1.contains s then p else (p.1 ++ [s], p.2 ++ [s])) (seen, [])
+    if fresh.isEmpty then seen' else expand fuel fresh seen'
+
+def expandAll (cands : List Sys) : List Sys :=
+  let seen := cands.foldl insertNew []
+  expand 64 seen seen
+
+def pcOf (s : Sys) (k : Nat) : Option Pc := (s.hs[k]?).map (·.pc)
+
+def bit (s : String) : Option Bool := if s = "1" then some true else if s = "0" then some false else none
+
+/-- One visible event on one candidate. -/
+def applyEv (env : Env) (s : Sys) (ev : List String) : Option Sys :=
+  match ev with
+  | ["acc", k] =>
+    match k.toNat? with
+    | some k =>
+      if k ≠ s.hs.length then none else
+      let s := if s.acc = .top then tryStep s .serveCheck else s
+      step s .accept
+    | none => none
+  | ["raddr", k] =>
+    match k.toNat? with
+    | some k =>
+      -- `Serve` evaluates it between `Accept` and the `go` statement (if it still does so at all)
+      if s.acc = .holding k ∧ pcOf s k = some .accepted then some s else none
+    | none => none
+  | ["rd", k] =>
+    match k.toNat? with
+    | some k => match s.hs[k]? with
+      -- the reader goroutine of `readRequest` exists: the handler passed `conns.Add` and the
+      -- `Closing()` check with "not closing" (the read itself may be logged after the handler gave up)
+      | some h => if h.entered then some s else none
+      | none => none
+    | none => none
+  | ["snd", k, "p"] =>
+    match k.toNat? with
+    | some k => some (tryStep s (.h k .firstByte))
+    | none => none
+  | ["snd", _, "f", _] => some s
+  | ["rqs", k] =>
+    match k.toNat? with
+    | some k => match s.hs[k]? with
+      | some h =>
+        match (getD env.sent k [])[h.reqs]? with
+        | some rc => runAll s [.h k (.gotReq rc), .h k .reqmodStart]
+        | none => none
+      | none => none
+    | none => none
+  | ["rqe", k] => k.toNat?.bind fun k => step s (.h k .reqmodEnd)
+  | ["rts", k] => k.toNat?.bind fun k => step s (.h k .rtStart)
+  | ["rte", k, rc] => k.toNat?.bind fun k => (bit rc).bind fun rc => step s (.h k (.rtEnd rc))
+  | ["rms", k] => k.toNat?.bind fun k => step s (.h k .resmodStart)
+  | ["rme", k] => k.toNat?.bind fun k => step s (.h k .resmodEnd)
+  | ["ws", k, b] =>
+    match k.toNat?, bit b with
+    | some k, some b =>
+      let s := if pcOf s k = some .postResmod then tryStep s (.h k .decide) else s
+      match step s (.h k .writeStart) with
+      | some s' => if pcOf s' k = some (.writing b) then some s' else none
+      | none => none
+    | _, _ => none
+  | ["we", k] => k.toNat?.bind fun k => step s (.h k .writeEnd)
+  | ["cc", k] =>
+    match k.toNat? with
+    | some k =>
+      let s := match pcOf s k with
+        | some pc => if pc.readable then tryStep s (.h k .closingSeen) else s
+        | none => s
+      runAll s [.h k .closeConn, .h k .finish]
+    | none => none
+  | ["call"] => step s .closeCall
+  | ["obs"] =>
+    let s := if s.cpc = .called then tryStep s .closeChan else s
+    if s.closing then some s else none
+  | ["ret"] =>
+    let s := if s.cpc = .called then tryStep s .closeChan else s
+    let s := if s.cpc = .chanClosed then tryStep s .lock else s
+    let s := if s.cpc = .locked then tryStep s .waitZero else s
+    step s .ret
+  | ["resp", k, b] =>
+    match k.toNat?, bit b with
+    | some k, some b => match s.hs[k]? with
+      | some h => match h.marks[getD env.resps k 0]? with
+        | some m => if m.2.2 = b then some s else none
+        -- the client can have read the last byte before the server-side write call has returned
+        | none => if getD env.resps k 0 = h.marks.length ∧ h.pc = .writing b then some s else none
+      | none => none
+    | _, _ => none
+  | ["eof", k] =>
+    match k.toNat? with
+    | some k => match pcOf s k with
+      | some pc => if pc = .closed ∨ pc = .done then some s else none
+      | none => none
+    | none => none
+  | _ => none
+
+def updEnv (env : Env) (ev : List String) : Env :=
+  match ev with
+  | ["snd", k, "f", rc] =>
+    match k.toNat?, bit rc with
+    | some k, some rc => { env with sent := setPad env.sent k [] (getD env.sent k [] ++ [rc]) }
+    | _, _ => env
+  | ["resp", k, _] =>
+    match k.toNat? with
+    | some k => { env with resps := setPad env.resps k 0 (getD env.resps k 0 + 1) }
+    | none => env
+  | _ => env
+
+def accept : List String → Nat → Env → List Sys → String
+  | [], i, _, cands =>
+    s!"ok n={i} early={if cands.any (·.returnedEarly) then 1 else 0}"
+  | t :: ts, i, env, cands =>
+    if t.startsWith "started=" then accept ts i env cands ++ " " ++ t else
+    let ev := t.splitOn ":"
+    let env1 := match ev with
+      | ["snd", _, "f", _] => updEnv env ev
+      | _ => env
+    let cands' := (expandAll cands).filterMap fun s => applyEv env1 s ev
+    let env2 := match ev with
+      | ["resp", _, _] => updEnv env1 ev
+      | _ => env1
+    if cands'.isEmpty then s!"reject@{i}:{t}" else accept ts (i + 1) env2 (cands'.foldl insertNew [])
+
+def step (_ : St) (toks : List String) : St × String :=
+  match toks with
+  -- the harness starts `Serve` and waits until it is in `Accept`: the first loop-top check is over
+  | "trace" :: evs => ((), accept evs 0 {} [tryStep Shutdown.init .serveCheck])
+  | _ => ((), "bad-op")
 
 end Martian.Drv.C07
